@@ -42,18 +42,6 @@ Definition f_exact (bits : N) : option Z :=
     let sh := if e =? 0 then 0 else e - 1 in
     Some (sg (Z.of_N (N.shiftl m sh))).
 Definition i_exact (z : Z) : Z := Z.shiftl z 1074.
-(* Rust `z as f64` (round to nearest, ties to even) as an exact integer *)
-Definition i_round (z : Z) : Z :=
-  let a := Z.abs z in
-  let r :=
-    if (a <? 9007199254740992)%Z then a else
-    let e := (Z.log2 a - 52)%Z in
-    let q := Z.shiftr a e in
-    let rem := (a - Z.shiftl q e)%Z in
-    let half := Z.shiftl 1 (e - 1) in
-    let q' := if (half <? rem)%Z || ((rem =? half)%Z && Z.odd q) then (q + 1)%Z else q in
-    Z.shiftl q' e in
-  if (z <? 0)%Z then (- r)%Z else r.
 
 Definition oeq (a b : oval) : option bool :=
   match a, b with
@@ -66,11 +54,8 @@ Definition oeq (a b : oval) : option bool :=
          same trusted reading of bit patterns as C27 *)
       Some (negb (is_nan x) && negb (is_nan y) && Z.eqb (fkey x) (fkey y))
   | OInt x, OFloat y | OFloat y, OInt x =>
-      (* float_equals_int: the double is finite and equals `x as f64` *)
-      Some (match f_exact y with
-            | Some q => (Z.abs q <? Z.pow 2 2200)%Z && Z.eqb (i_exact (i_round x)) q
-            | None => false
-            end)
+      (* float_equals_int = (compare_i64_f64 == Equal): exact comparison (since /repo 375602e) *)
+      Some (match f_exact y with Some q => Z.eqb (i_exact x) q | None => false end)
   | _, _ => Some false
   end.
 Definition oeq_true (a b : oval) : bool :=
